@@ -2,7 +2,8 @@
     Statements only; proofs are in Proofs/. *)
 From Coq Require Import List NArith ZArith.
 From Cicada Require Import Base.Chars Base.Tag Model.Expand Model.ExpandRef
-  Proofs.ExpandBasics Proofs.EnvWitness Proofs.EnvProofs.
+  Proofs.ExpandBasics Proofs.EnvWitness Proofs.EnvProofs Proofs.ExpandInert Model.ExpandOnce Proofs.ExpandOnceProofs.
+From Cicada Require Model.Tokenizer.
 Import ListNotations.
 Local Open Scope N_scope.
 
@@ -79,6 +80,27 @@ Example C10_nonvacuous :
   = Ok [(TDq, [112; 114; 101; 45; 97; 46; 42; 91; 98; 112; 32; 113; 46; 48])].
 Proof. vm_compute. repeat split. Qed.
 
+(** Through ALL passes of do_expansion (composed with the real tokenizer): behind an inert command
+    word, single-quoted tokens and dollar- and backquote-free double-quoted tokens come out unchanged,
+    and a double-quoted token in the domain of C10_partial comes out as ONE double-quoted token holding
+    the one-pass substitution; every other token is unchanged (used by C01 / C13). *)
+Theorem C10_do_expansion_inert : forall W fuel cmd l l',
+  cmd_ok W cmd -> Forall2 (tok_ok W fuel) l l' ->
+  do_expansion Tokenizer.parse_line W fuel ((TNone, cmd) :: l) = Ok ((TNone, cmd) :: l').
+Proof. exact do_expansion_inert. Qed.
+(** ... whereas an UNTAGGED reference whose value is a pipe character becomes the untagged token | . *)
+Example C10_untagged_value_is_syntax :
+  do_expansion Tokenizer.parse_line (world_of [([65], [124])] []) 5 [(TNone, [101; 99; 104; 111]); (TNone, [36; 65])]
+  = Ok [(TNone, [101; 99; 104; 111]); (TNone, [124])].
+Proof. exact untagged_value_is_syntax. Qed.
+
+(** About the PROPOSED repair (notes/C10-fix-1.patch; Model/ExpandOnce.v transcribes the patched
+    functions): the one-pass expansion is the reference for every world -- values are unrestricted. *)
+Theorem C10_once_variant : forall W noeq ps tg,
+  wf_pieces ps = true -> lits_ok noeq ps = true -> tg <> TSq -> tg <> TBq ->
+  expand_env_tok1 W (tg, render_pieces ps) = (tg, den_pieces W ps).
+Proof. exact once_tok_is_den. Qed.
+
 Check C10_refuted : ~ C10_full.
 Check C10_diverges : forall W t,
   expand_one_env W t = t -> env_in_token t = true -> forall f, expand_env_loop f W t = OutOfFuel.
@@ -86,6 +108,8 @@ Check C10_single_quoted : forall f W toks,
   (forall t, In t toks -> fst t = TSq \/ fst t = TBq) -> expand_env f W toks = Ok toks.
 
 Print Assumptions C10_partial.
+Print Assumptions C10_do_expansion_inert.
+Print Assumptions C10_once_variant.
 Print Assumptions C10_refuted.
 Print Assumptions C10_refuted_rescan.
 Print Assumptions C10_refuted_self_reference.
